@@ -55,6 +55,16 @@ def main():
         if "parsetab.py" not in open(os.path.join(sd, "patch.diff")).read():
             sh(["git", "-C", wt, "checkout", "--", "simple_ddl_parser/parsetab.py"])
         out["checks"] = {}
+        vseeds = a[a.index("--verif-seeds") + 1].split(",") if "--verif-seeds" in a else []
+        if vseeds:
+            # detection rate of the own check over several VERIF_SEED values (one quick run each)
+            out["rate"] = {}
+            for vs in vseeds:
+                cenv = dict(os.environ, VERIF_REPO=wt, VERIF_BUDGET_S=budget, VERIF_NO_EVIDENCE="1", VERIF_SEED=vs)
+                cenv.pop("PYTHONPATH", None)
+                t0 = time.time()
+                rc, o = sh([PY, os.path.join(VERIF, "dst", "check.py"), prop, tier], cwd=VERIF, env=cenv)
+                out["rate"][vs] = {"rc": rc, "violations": len([ln for ln in o.splitlines() if ln.startswith("VIOLATION")]), "wall_s": round(time.time() - t0, 1)}
         for p in props:
             cenv = dict(os.environ, VERIF_REPO=wt, VERIF_BUDGET_S=budget if p == prop else other_budget, VERIF_NO_EVIDENCE="1")
             cenv.pop("PYTHONPATH", None)
